@@ -205,9 +205,85 @@ func (d *kvDriver[K]) oneSidedDrain(n int) {
 	}
 }
 
+// neighbourhood: after building n keys, bursts of Get/Put/Remove aimed at a
+// focus key and its immediate neighbours in key order, with long gaps between
+// the monitor's own observations. Caches of "the last node found", cursors and
+// hints go wrong exactly on such sequences (Get(p), Remove(successor of p),
+// Remove(p) or Put(p), Get(p)) and are repaired by any unrelated lookup - such
+// as the probes a monitor makes when it observes after every call.
+func (d *kvDriver[K]) neighbourhood(n, bursts int) {
+	r := d.c.R
+	d.c.Note("neighbourhood bursts on %d keys", n)
+	for _, i := range orderFamily(r, n, r.Intn(6)) {
+		d.put(d.keyOf(i))
+	}
+	d.m.Final()
+	d.c.SetGapMax(24)
+	for b := 0; b < bursts && d.m.n() > 4; b++ {
+		f := r.Intn(d.m.n())
+		var focus []K
+		for p := f - 2; p <= f+2; p++ {
+			if p >= 0 && p < d.m.n() {
+				focus = append(focus, d.m.Mod.Ents[p].Key)
+			}
+		}
+		for s := r.Range(4, 10); s > 0; s-- {
+			k := focus[r.Intn(len(focus))]
+			switch r.Pick(40, 25, 35) {
+			case 0:
+				d.m.Get(k)
+			case 1:
+				d.m.Remove(k)
+			default:
+				d.put(k) // new value for a present key, or re-insertion of a removed one
+			}
+		}
+		d.c.Count("obs:neighbourhood-bursts", 1)
+	}
+	d.m.Final()
+}
+
+// bigOrderBTree: B-trees of order >= 16 only get three or more levels, with
+// inner nodes that borrow and merge, when they hold order^2 keys and more.
+func (d *kvDriver[K]) bigOrderBTree() {
+	r := d.c.R
+	order := d.m.A.Order
+	n := order * order * r.Range(1, 3)
+	if n > 4000 {
+		n = 4000
+	}
+	d.c.Note("B-tree of order %d with %d keys: build, drain 70%%, refill", order, n)
+	for _, i := range orderFamily(r, n, r.Intn(6)) {
+		d.put(d.keyOf(i))
+	}
+	drain := orderFamily(r, n, r.Intn(6))
+	for _, i := range drain[:n*7/10] {
+		d.m.Remove(d.keyOf(i))
+		if r.Chance(1, 50) {
+			d.probe()
+		}
+	}
+	for _, i := range drain[:n*3/10] {
+		d.put(d.keyOf(i))
+	}
+	for _, i := range orderFamily(r, n, r.Intn(6)) {
+		d.m.Remove(d.keyOf(i))
+	}
+	d.c.Count("obs:big-order-btree-cases", 1)
+}
+
 // runFamily picks one workload family.
 func (d *kvDriver[K]) runFamily(large int) {
 	r := d.c.R
+	if d.m.A.Order >= 16 && r.Chance(1, 3) {
+		d.bigOrderBTree()
+		d.m.Final()
+		return
+	}
+	if r.Chance(1, 8) {
+		d.neighbourhood(sizeClass(r, large)+r.Range(0, 80), r.Range(20, 120))
+		return
+	}
 	switch r.Pick(40, 20, 15, 15, 10) {
 	case 0:
 		d.smallRandom(r.Range(30, 200))
